@@ -127,7 +127,10 @@ impl<'a> LspServer<'a> {
                     }
                     self.handle_request(req);
                 }
-                lsp_server::Message::Response(_) => todo!(),
+                lsp_server::Message::Response(_) => {
+                    // This server never sends requests, so there is nothing to match
+                    // a response to. Ignore it rather than fail.
+                }
                 lsp_server::Message::Notification(notification) => {
                     self.handle_notification(&notification);
                 }
